@@ -878,6 +878,7 @@ public:
         f["qname"] = job.qname;
         f["parent_fn"] = job.parent;
         f["loc"] = locStr(fd->getLocation());
+        f["body_loc"] = locStr(body->getBeginLoc());
         f["end"] = locStr(fd->getEndLoc());
         f["pattern"] = fd->isDependentContext();
         f["full"] = templArgs(fd);
